@@ -111,7 +111,8 @@ class Child:
             'VERIF_CHILD_HASHSEED', env.get('PYTHONHASHSEED', '0'))
         env['PYTHONDONTWRITEBYTECODE'] = '1'
         self.proc = subprocess.Popen(
-            [sys.executable, '-B', os.path.abspath(__file__), 'serve'],
+            [sys.executable, '-B'] + (['-O'] if sys.flags.optimize else [])
+            + [os.path.abspath(__file__), 'serve'],
             stdin=subprocess.PIPE, stdout=subprocess.PIPE,
             stderr=subprocess.DEVNULL, env=env, text=True, bufsize=1)
 
